@@ -66,7 +66,7 @@ class Plugin(BasePlugin):
         if rng.random() < 0.55:
             k = rng.choice(['$addFields', '$set', '$lookup', '$unwind', '$project', '$facet', '$facet', '$replaceRoot'])
             if k in ('$addFields', '$set'):
-                return {k: {rng.choice(['d.z', 'd.x', 'e.f', 'x']): genpipe.genexpr_pipe(rng)}}
+                return {k: {rng.choice(['d.z', 'd.x', 'e.f', 'x', 'h.i.j', 'h.i.z', 'h.i.j']): genpipe.genexpr_pipe(rng)}}
             if k == '$lookup':
                 return {k: {'from': rng.choice(['o', 'o', 'c']), 'localField': rng.choice(['k', 'n']),
                             'foreignField': rng.choice(['k', '_id']), 'as': rng.choice(['j', 'n', 'd'])}}
